@@ -1,3 +1,4 @@
+import Netconan.Proofs.NetPins
 import Netconan.Proofs.IpInt
 /-!
 # C01 – IP anonymization preserves common-prefix length (IPv4 and IPv6)
@@ -56,5 +57,16 @@ example : Ffull hEx [[true, false]] 4 1 [false, true, true, false] = [false, tru
 example : Ffull hEx [[true, false]] 4 1 [true, false, true, true] = [true, false, false, true] := by decide
 example : cpl (Ffull hEx [[true, false]] 4 1 [false, true, true, false])
               (Ffull hEx [[true, false]] 4 1 [false, true, false, false]) = 2 := by decide
+
+open NoSurvival IpText in
+/-- **Text level**: two dotted quads that the IPv4 stage anonymizes are written as addresses sharing exactly as
+many leading bits as the originals (the scanner theorem of C06 says which tokens these are). -/
+theorem text_level_common_prefix (c : IpCfg) (hf : c.fam6 = false) (t1 t2 : List Char)
+    (h1 : Lang core4 t1) (h2 : Lang core4 t2) :
+    ∃ n1 n2, parseV4 t1 = .ok n1 ∧ parseV4 t2 = .ok n2 ∧
+      (Mask.shouldAnonymize c.nets n1 = true → Mask.shouldAnonymize c.nets n2 = true →
+        ∃ m1 m2, anonMatch c false t1 = showV4 m1 ∧ anonMatch c false t2 = showV4 m2 ∧
+          Spec.cpl (toBitsW 32 m1) (toBitsW 32 m2) = Spec.cpl (toBitsW 32 n1) (toBitsW 32 n2)) :=
+  replaced_tokens_keep_common_prefix c hf t1 t2 h1 h2
 
 end Netconan.Props.C01
